@@ -10,6 +10,7 @@ The isolation clause (two names never share traffic) is `c07_names_are_distinct_
 theorems of C11/C17 (`Server/Registry.lean`), where topics are keyed by the (namespace, topic) pair.
 -/
 import SeliumModel.Lemmas.Topic
+import SeliumModel.Lemmas.System
 
 namespace Selium.Topic
 open Selium Selium.Gen.Topic
@@ -132,6 +133,30 @@ example : tryFrom [47, 97, 98, 47, 100, 101, 102] = .err "parse" := by decide +k
 
 end Selium.Topic
 
+/-! ## Two different names never share traffic (whole-server model, `Server/System.lean`) -/
+namespace Selium.Server
+open Selium.Route Selium.Sink
+
+/-- nothing a peer does under name `a` — opening streams in any role, with any scripted behaviour — and no poll of
+    `a`'s routers mentions another name `b` … -/
+theorem c07_other_name_not_mentioned (a b : Name) (h : a ≠ b) (role : Role) (sink : Child RFrame)
+    (stream : List (SAns RFrame)) (fuel : Nat) (o so ko : List Nat) :
+    mentions b (.openStream (some (.register role a)) sink stream) = false ∧
+    mentions b (.pollPubsub a fuel o) = false ∧ mentions b (.pollReqrep a fuel so ko) = false := by
+  simp [mentions, h]
+
+/-- … and what is not mentioned has no effect: for every history of the whole server and every name `b`, the
+    registry entry of `b` and the complete state of `b`'s pub/sub and request/reply routers (every frame every peer
+    of `b` was handed) are what they would be had the events of all other names never happened. Two different
+    names never share a router, a channel, or a single frame. -/
+theorem c07_different_names_never_share_traffic (history : List SEvent) (b : Name) :
+    (sysExec history).registry.lookup b = (sysExec (history.filter (mentions b))).registry.lookup b ∧
+    (sysExec history).ps b = (sysExec (history.filter (mentions b))).ps b ∧
+    (sysExec history).rr b = (sysExec (history.filter (mentions b))).rr b :=
+  sys_topic_independent b history
+
+end Selium.Server
+
 #print axioms Selium.Topic.c07_accept_iff
 #print axioms Selium.Topic.c07_total
 #print axioms Selium.Topic.c07_display_of_parse
@@ -139,3 +164,5 @@ end Selium.Topic
 #print axioms Selium.Topic.c07_server_same_rule
 #print axioms Selium.Topic.c07_create
 #print axioms Selium.Topic.c07_names_are_distinct_keys
+#print axioms Selium.Server.c07_other_name_not_mentioned
+#print axioms Selium.Server.c07_different_names_never_share_traffic
